@@ -104,9 +104,12 @@ impl TailsWriter for TailsFileWriter {
         struct TempFile<'a>(&'a Path);
         impl TempFile<'_> {
             pub fn rename(self, target: &Path) -> Result<(), Error> {
-                let path = std::mem::ManuallyDrop::new(self).0;
+                let path = self.0;
+                // on failure `self` is dropped and removes the temp file
                 std::fs::rename(path, target)
-                    .map_err(|e| err_msg!("Error moving tails temp file {path:?}: {e}"))
+                    .map_err(|e| err_msg!("Error moving tails temp file {path:?}: {e}"))?;
+                std::mem::forget(self);
+                Ok(())
             }
         }
         impl Drop for TempFile<'_> {
